@@ -121,20 +121,20 @@ def build_driver(profile, want_hooks=True):
             base.append("--release")
         secs = 0.0
         hooks = False
-        if want_hooks:
+        # optional feature sets, most capable first: a tree on which a hook or an optional helper no longer compiles still gets an
+        # op-server for the main public API
+        attempts = ([("hooks,wordscan", True), ("hooks", True)] if want_hooks else []) + [("wordscan", False), ("", False)]
+        first_error = None
+        for feats, with_hooks in attempts:
             try:
-                secs += _run(base + ["--features", "hooks"], ws, env, "op-server build (hooks on)")
-                hooks = True
+                secs += _run(base + (["--features", feats] if feats else []), ws, env, "op-server build (features: %s)" % (feats or "none"))
+                hooks = with_hooks
+                break
             except BuildError as e:
-                sys.stderr.write("note: op-server build with hooks failed, retrying without hooks\n")
-                first_error = e
-        if not hooks:
-            try:
-                secs += _run(base, ws, env, "op-server build")
-            except BuildError:
-                if want_hooks:
-                    raise first_error
-                raise
+                sys.stderr.write("note: op-server build with features [%s] failed\n" % feats)
+                first_error = first_error or e
+        else:
+            raise first_error
         out = os.path.join(target, "debug" if profile == "dev" else "release", "opserver")
         # copy so that a later rebuild (other feature set) cannot swap the binary under a running check
         dst = os.path.join(BUILD, "bin-" + key)
